@@ -61,6 +61,11 @@ def build(version, ins, outs, txver=2, locktime=0):
         pairs = list(i["pairs"])
         if version == 2:
             v2 = [(b"\x0e", i["txid"][::-1]), (b"\x0f", i["vout"].to_bytes(4, "little")), (b"\x10", i["seq"].to_bytes(4, "little"))]
+            o = i.get("v2order", 0)
+            if o % 3 == 1:
+                v2 = [v2[0], v2[2], v2[1]]
+            elif o % 3 == 2:
+                v2 = [v2[2], v2[1], v2[0]]
             pairs = (v2 + pairs) if i.get("v2first", True) else (pairs + v2)
         b += b"".join(kv(k, v) for k, v in pairs) + b"\x00"
     for (val, spk) in outs:
@@ -125,6 +130,44 @@ def case(c, kind, version, ins, outs, truth):
                 c.fail("fee after verification differs from verified amounts", dict(info, op="psbt.fee", fee=fee, expected=exp))
 
 
+def history_cases(c, version, base, outs, prevs):
+    """verify, then alter the previous transaction object in place, then verify again: the second verification must
+    not succeed with the old verdict (full mode keeps the parsed previous transaction)"""
+    b = build(version, base, outs)
+    try:
+        p = PSBT.parse(b)
+        p.verify()
+    except Exception:
+        return
+    rng = c.rng
+    j = rng.randrange(len(p.inputs))
+    prev = p.inputs[j].non_witness_utxo
+    if prev is None:
+        return
+    kind = rng.choice(["value", "script", "locktime", "version", "sequence"])
+    idx = p.inputs[j].vout
+    if kind == "value":
+        prev.vout[idx].value += 1
+    elif kind == "script":
+        prev.vout[idx].script_pubkey.data += b"\x51"
+    elif kind == "locktime":
+        prev.locktime ^= 1
+    elif kind == "version":
+        prev.version ^= 0x100
+    else:
+        prev.vin[0].sequence ^= 1
+    c.count(("history", kind, b), nontrivial=True)
+    c.tally("history:" + kind)
+    try:
+        ok = p.inputs[j].verify()
+    except Exception:
+        ok = False
+    if ok:
+        c.fail("verification still succeeds after the previous transaction object was altered in place (%s)" % kind,
+               {"op": "psbt.verify.history", "kind": kind, "input": j, "bytes": hx(b)[:20000],
+                "history": ["PSBT.parse", "verify()", "alter non_witness_utxo.%s" % kind, "inputs[%d].verify()" % j]})
+
+
 def explore(c, n):
     rng = c.rng
     for k in range(n):
@@ -137,9 +180,10 @@ def explore(c, n):
             idx = rng.randrange(len(p["vout"]))
             txid = dsha(ser_prev(p, witness=False))[::-1]
             base.append({"txid": txid, "vout": idx, "seq": gen.pick_u32(rng), "pairs": [(b"\x00", ser_prev(p))],
-                         "v2first": rng.random() < 0.7})
+                         "v2first": rng.random() < 0.7, "v2order": rng.randrange(3)})
             truth.append({"hash_ok": True, "out": p["vout"][idx], "consistent": True})
         case(c, "valid", version, base, outs, truth)
+        history_cases(c, version, base, outs, prevs)
         # structured alterations of input j
         j = rng.randrange(nin)
         p = prevs[j]
